@@ -106,6 +106,41 @@ def is_pure(t: Any) -> bool:
     return r
 
 
+_PURIFY: dict[int, tuple[Any, Any]] = {}
+
+
+def purify(t: Any) -> Any:
+    """Replace every maximal Int-sorted subterm that has a sequence-sorted subterm (seq.nth,
+    seq.len, FB(...), ...) by an Int constant named after it.  The result is a consequence-
+    preserving abstraction: equal terms get the same constant, so arithmetic facts about byte
+    elements and lengths become available to the pure projection of the path condition."""
+    k = t.get_id()
+    hit = _PURIFY.get(k)
+    if hit is not None:
+        return hit[1]
+    if is_pure(t):
+        r = t
+    elif z3.is_quantifier(t):
+        r = t
+    elif t.sort().kind() == z3.Z3_INT_SORT and z3.is_app(t) and \
+            any(c.sort().kind() in (z3.Z3_SEQ_SORT, z3.Z3_RE_SORT) for c in t.children()):
+        r = z3.Int(f"pure!{k}")
+    elif z3.is_app(t) and t.num_args() > 0 and t.sort().kind() not in (z3.Z3_SEQ_SORT,
+                                                                         z3.Z3_RE_SORT):
+        ch = [purify(c) for c in t.children()]
+        if any(c.sort().kind() in (z3.Z3_SEQ_SORT, z3.Z3_RE_SORT) for c in ch):
+            r = t
+        else:
+            try:
+                r = t.decl()(*ch)
+            except Exception:  # noqa: BLE001
+                r = t
+    else:
+        r = t
+    _PURIFY[k] = (t, r)
+    return r
+
+
 _AST_CACHE: dict[Any, tuple[ast.AST, str]] = {}
 
 
@@ -328,8 +363,12 @@ class Interp:
         f = z3.simplify(f)
         if z3.is_true(f):
             return True
-        if z3.is_false(f) or not is_pure(f):
+        if z3.is_false(f):
             return False
+        if not is_pure(f):
+            f = purify(f)
+            if not is_pure(f):
+                return False
         s = z3.Solver()
         s.set("timeout", 2000)
         s.add(*self.pure())
@@ -345,7 +384,9 @@ class Interp:
         if z3.is_int_value(t):
             return t.as_long()
         if not is_pure(t):
-            return None
+            t = purify(t)
+            if not is_pure(t):
+                return None
         s = z3.Solver()
         s.set("timeout", 2000)
         s.add(*self.pure())
@@ -362,6 +403,10 @@ class Interp:
             for a in self.solver_assertions[self._pure_upto:]:
                 if is_pure(a):
                     self.pure_assertions.append(a)
+                else:
+                    b = purify(a)
+                    if is_pure(b):
+                        self.pure_assertions.append(b)
             self._pure_upto = k
         return self.pure_assertions
 
@@ -370,9 +415,14 @@ class Interp:
 
     def _feasible(self, f: Any) -> bool:
         poll_deadline()
-        if z3.is_expr(f) and is_pure(f):
-            # a pure condition is first decided on the arithmetic projection: unsat there is
-            # unsat for the full path condition; sat there is accepted (over-approximation)
+        g = f
+        if z3.is_expr(f) and not is_pure(f):
+            g = purify(f)
+        if z3.is_expr(g) and is_pure(g):
+            # a condition that is arithmetic over (purified) byte elements and lengths is decided
+            # on the arithmetic projection: unsat there is unsat for the full path condition;
+            # sat there is accepted (over-approximation)
+            f = g
             s = z3.Solver()
             s.set("timeout", self.ex.feas_timeout_ms)
             s.add(*self.pure())
